@@ -333,6 +333,7 @@ def explore(name, chain, pre, plan, part):
         new = post.objs[-1]
         if new.stale:
             part.count("result_with_inconsistent_cache")
+            part.count(f"result_with_inconsistent_cache:{chain_str(chain)}:{name}:{','.join(new.stale)}")
     part.count("substeps", h.steps)
     for k, v in h.step_errors.items():
         part.count("substep_error:" + k, v)
